@@ -81,6 +81,8 @@ def tablesOk : Bool :=
   siteOk "receive_datagram" "_payload_received" [("QuicConnectionError", .close)] &&
   siteOk "_handle_crypto_frame" "handle_message" [("Alert", .raiseConn 0x100)] &&
   siteOk "next_event" "popleft" [("IndexError", .ret)] &&
+  -- `change_connection_id()` is called from the migration block without a try: it must not raise
+  changeCidRaises == [] &&
   siteOk "datagrams_to_send" "_write_application" [("QuicPacketBuilderStop", .pass)] &&
   siteOk "datagrams_to_send" "_write_handshake" [("QuicPacketBuilderStop", .pass)] &&
   siteOk "datagrams_to_send" "_write_connection_close_frame" [("QuicPacketBuilderStop", .pass)]
@@ -117,7 +119,10 @@ theorem runPayload_ok : PayloadOk runPayload := by
     (key unavailable / authentication failure / authenticated with ANY list of frames of
     ANY type whose handlers produce handled outcomes): `receive_datagram` returns with
     outcome class ignored / processed / closed-with-code, never an escaping exception,
-    and `ConnInv` holds afterwards. -/
+    and `ConnInv` holds afterwards.  Steps of the loop body that call out of the receive path:
+    the payload processor (`runPayload`, handled outcomes by `FrameOk`) and the migration block's
+    `change_connection_id()` (`migrationStep`, `change_connection_id_total`; its exception set is
+    extracted from the source: `tables_ok` requires `changeCidRaises = []`). -/
 theorem recv_total (small : Bool) (pkts : List (Pkt Frames)) (s : St)
     (hpk : ∀ p ∈ pkts, HdrOk p) (hi : ConnInv s) :
     ConnInv (receiveDatagram runPayload small pkts s).1 ∧
@@ -131,6 +136,20 @@ theorem recv_total (small : Bool) (pkts : List (Pkt Frames)) (s : St)
   | processed => simp
   | closed c => simp
   | raised cls => exact absurd h (h2 cls)
+
+/-- "in every connection state": the migration block of `receive_datagram` (a server that
+    receives a 1-RTT packet addressed to another of its connection IDs) calls the application API
+    `change_connection_id()` outside any `try`.  Whatever the number of spare peer connection IDs —
+    none (the peer withheld NEW_CONNECTION_ID), one, several, all consumed — the call returns
+    normally and at most consumes one spare.  `recv_total` uses this step for every packet that
+    reaches the end of the loop body (`finishPacket`). -/
+theorem change_connection_id_total (s : St) (migrate : Bool) :
+    migrationStep s migrate = .ok s ∨
+    migrationStep s migrate = .ok { s with peerCidAvailable := s.peerCidAvailable - 1 } := by
+  unfold migrationStep
+  split
+  · exact changeConnectionId_total s
+  · exact Or.inl rfl
 
 /-- the same for ANY payload processor satisfying `PayloadOk` — instantiated with the
     byte-level frame handlers in `AQ.Props.C05Frames` -/
@@ -266,6 +285,15 @@ example : (receiveDatagram runPayload false
 example : (receiveDatagram runPayload false
     [{ hdr := .ok { ptype := .oneRtt }, dec := .cryptoError }] connectedClient).2 = .ignored := by decide
 
+/-- a server without any spare peer connection ID receives a packet addressed to another of its
+    connection IDs: processed -/
+example : (receiveDatagram runPayload false
+    [{ hdr := .ok { ptype := .oneRtt, dcidNotCurrent := true },
+       dec := .ok false false ⟨[{ ftype := .ok 0x01, handler := .ok () }], by
+        intro f hf; simp at hf; subst hf; exact ⟨by simp, by simp⟩⟩ false false }]
+    { isClient := false, initialized := true, nPaths := 1, closeAtSet := true, state := .connected,
+      peerCidAvailable := 0 }).2 = .processed := by decide
+
 /-- an unhandled handler outcome does escape (the hypothesis `FrameOk` is needed) -/
 example : (recvLoop (fun s ep cr (fs : List FrameIn) => runFrames s ep cr fs) false
     [{ hdr := .ok { ptype := .oneRtt }, dec := .ok false false [{ ftype := .ok 0x01, handler := .error (.py .assertion) }] false false }]
@@ -274,6 +302,7 @@ example : (recvLoop (fun s ep cr (fs : List FrameIn) => runFrames s ep cr fs) fa
 #print axioms tables_ok
 #print axioms recv_total
 #print axioms recv_total_generic
+#print axioms change_connection_id_total
 #print axioms step_total
 #print axioms after_close_total
 #print axioms fresh_server_garbage_then_send
